@@ -31,9 +31,17 @@ class lake_lock:
 
 def regenerate_consts():
     """translator-lite: regenerate Mrpro/Gen/*.lean from /repo sources (only rewritten when changed)"""
-    from harness import extract_consts
+    from harness import extract_consts, translate_src
 
-    return extract_consts.main()
+    a = extract_consts.main()
+    b = translate_src.main()
+    return a or b
+
+
+def translated_sites() -> dict:
+    from harness import translate_src
+
+    return translate_src.status()
 
 
 def build(targets: list[str], clean: bool = False):
@@ -121,7 +129,16 @@ def failed_theorems(prop: str, log: str) -> list[str]:
                     name = t
             failed.append(name or f'Props/{prop}:{line}')
         else:
-            failed.append(f'{mod}:{line}')
+            name = None
+            try:
+                src = strip_comments((LEAN_DIR / 'Mrpro' / f'{mod}.lean').read_text()).split('\n')
+                for n, l in enumerate(src, 1):
+                    mm = re.match(r'^(?:private\s+)?(?:theorem|lemma|def)\s+([^\s:({\[]+)', l)
+                    if mm and n <= line:
+                        name = mm.group(1)
+            except OSError:
+                pass
+            failed.append(f'{mod}:{line}' + (f' ({name})' if name else ''))
     return sorted(set(failed))
 
 
